@@ -75,6 +75,12 @@ pub fn run(ctx: &mut Ctx, reg: &Registry) {
                     _ => continue,
                 };
                 ctx.count(&format!("files:{}", c.name()));
+                ctx.sample(&format!("fault-schedule:{}", c.name()), {
+                    let mut j = case_json(&s.label, e.def, ver, v, Some(&full));
+                    j.push("container", J::s(c.name()));
+                    j.push("schedules", J::s(format!("writer fails at every offset 0..{0} (kinds Other/BrokenPipe/UnexpectedEof/PermissionDenied, chunk limits 1/5/64/unlimited); reader fails at every offset 0..{0}; 8 short-write/Interrupted writer schedules; 8 chunked/Interrupted reader schedules", full.len())));
+                    j
+                });
                 writer_faults(ctx, s, v, &full, &plain, c, &mut rng);
                 writer_chunking(ctx, s, v, &full, &plain, c, &mut rng);
                 reader_chunking(ctx, s, v, &expected, &full, c, &mut rng);
